@@ -286,7 +286,7 @@ func (c *connection) recv(conn net.Conn, connDone chan bool) {
 				break
 			}
 			if status == PackageFull {
-				atomic.AddInt32(&c.invokeNum, -1)
+				c.answered()
 				pkg := make([]byte, pkgLen)
 				copy(pkg, currBuffer[0:pkgLen])
 				currBuffer = currBuffer[pkgLen:]
@@ -299,6 +299,18 @@ func (c *connection) recv(conn net.Conn, connDone chan bool) {
 			}
 			TLOG.Error("parse package error")
 			c.close(conn)
+			return
+		}
+	}
+}
+
+// answered counts one request as no longer in flight. Frames the client did not ask
+// for (server push, the close notification) must not drive the counter below zero:
+// GraceClose would take a connection with a request in flight for drained.
+func (c *connection) answered() {
+	for {
+		n := atomic.LoadInt32(&c.invokeNum)
+		if n <= 0 || atomic.CompareAndSwapInt32(&c.invokeNum, n, n-1) {
 			return
 		}
 	}
